@@ -388,6 +388,9 @@ func run(c *runner.Ctx) {
 				if v.signalled {
 					c.Count("executions_with_error_signal", 1)
 					c.Count("signal_"+cs.Chan+"_"+v.why, 1)
+					if cs.Chan == "multipart" && !hasNUL(cs) {
+						c.Count("signal_multipart_without_NUL_in_a_parameter", 1)
+					}
 					if c.Worker == 0 && c.Get("signal_"+cs.Chan+"_"+v.why) == 1 {
 						c.Note("first signalled case of worker %d (%s/%s): %s", c.Worker, cs.Chan, v.why, wire(rq))
 					}
@@ -418,6 +421,15 @@ func run(c *runner.Ctx) {
 	c.Extra("alphabet_json", quoteAll(symJSON))
 	c.Extra("alphabet_xml", quoteAll(symXML))
 	c.Extra("variables_read_back", varNames())
+}
+
+func hasNUL(cs Case) bool {
+	for _, it := range cs.Items {
+		if strings.Contains(it.Name+it.Sub, "\x00") {
+			return true
+		}
+	}
+	return false
 }
 
 func quoteAll(l []string) []string {
